@@ -14,6 +14,9 @@ RULE = (
     "level-out subset, D, reversed D, every row three times; evaluate_new_data(D[idx]) must equal training[idx] for "
     "the common and the group matrix.  A case is one (formula, variant); non-trivial when the formula has a stateful "
     "transform or a categorical"
+    '  Added: new frames that keep their labels, categoricals declaring only what occurs (evaluated '
+    'consecutively), chained evaluations, a work frame refilled in place, helper terms with a stateful numeric '
+    'part, an observation-level factor, integers beyond 2^53 compared exactly, 8-bit integer products. '
 )
 ASSUMPTIONS = [
     "tolerance rtol=1e-9, atol=1e-12 (vector/tail loops may differ in the last ulp)",
